@@ -4,11 +4,12 @@
 (* for what each first call initialises lazily). Threads are interchangeable, so assignments  *)
 (* are emitted as non-decreasing sequences (multisets) over the first NProgs programs.        *)
 (*   I cpu info   K crc32   D dispatch kernels   O<mode>C/B<t> open + column API / batch      *)
-(*   reader   V... the same with verify_checksums (carquet_crc32 per page)                    *)
+(*   reader with t OpenMP threads (1 in fread mode: the shared-stream question is ParRead's)   *)
+(*   V... the same with verify_checksums (carquet_crc32 per page)                             *)
 EXTENDS Naturals, Sequences, TLC, Json
 CONSTANTS Ns, NProgs
 VARIABLE st
-AllProgs == <<"I", "K", "D", "OfC", "OfB2", "VfC", "VfB2", "OmC", "VmB2", "ObC", "VbC">>
+AllProgs == <<"I", "K", "D", "OfC", "OfB1", "VfC", "VfB1", "OmC", "VmB2", "ObC", "VbB2">>
 RECURSIVE Multisets(_, _)
 Multisets(n, lo) ==     \* non-decreasing index sequences of length n over lo..NProgs
     IF n = 0 THEN {<<>>}
